@@ -208,17 +208,45 @@ fn %(name)s() {
         let (k2, n2) = st.verif_parts();
         assert!(*k2 == k1 && *n2 == n1, "PUSH_STATE_LIBSODIUM: state after push (incl. automatic rekey) equals libsodium's");
     }
-    // a pull stream in the same pre-state recovers message and tag and lands in the same state
-    let mut st2 = State::verif_from_parts(k0, n0);
+}
+''' % dict(name=name, k=lit(key), n=lit(n), mlen=mlen)
+
+
+def h_b_pull(name, key, inonce, ctr, mlen):
+    n = list(ctr.to_bytes(4, "little")) + inonce
+    return rs.hdr(("barrier", "fmt") + rs.MAC) + r'''
+fn %(name)s() {
+    let k0: [u8; 32] = %(k)s; let n0: [u8; 12] = %(n)s;
+    let m: [u8; %(mlen)d] = kani::any(); let tag: u8 = kani::any();
+    wit!(W_2, &m); wit!(W_4, &[tag]);
+    let mac: [u8; 16] = kani::any(); unsafe { AES.mac_out[0] = mac; }
+    // the ciphertext libsodium's push produces for (m, tag) in this state, built from the harness's own ChaCha20
+    let ks1 = chacha_block(&k0, 1, &n0); let ks2 = chacha_block(&k0, 2, &n0); let ks3 = chacha_block(&k0, 3, &n0);
+    let mut c = [0u8; %(mlen)d + 17];
+    c[0] = tag ^ ks1[0];
+    let mut i = 0;
+    while i < %(mlen)d { let ks = if i < 64 { ks2[i] } else { ks3[i - 64] }; c[1 + i] = m[i] ^ ks; i += 1; }
+    i = 0; while i < 16 { c[1 + %(mlen)d + i] = mac[i]; i += 1; }
+    let mut st = State::verif_from_parts(k0, n0);
     let mut out = [0u8; %(mlen)d]; let mut tagout: u8 = 0;
-    let r2 = crypto_secretstream_xchacha20poly1305_pull(&mut st2, &mut out, &mut tagout, &c, None);
-    assert!(r2.is_ok(), "PULL_ACCEPTS_PUSHED: the in-order ciphertext is accepted");
+    let r = crypto_secretstream_xchacha20poly1305_pull(&mut st, &mut out, &mut tagout, &c, None);
+    kani::cover!(r.is_ok(), "pull accepted");
+    assert!(r.is_ok(), "PULL_ACCEPTS_PUSHED: the in-order ciphertext is accepted");
     assert!(tagout == tag, "PULL_TAG: pull returns the pushed tag byte (any of 256)");
     i = 0; while i < %(mlen)d { assert!(out[i] == m[i], "PULL_MESSAGE: pull recovers the pushed message"); i += 1; }
-    {
-        let (k2, n2) = st2.verif_parts();
-        assert!(*k2 == k1 && *n2 == n1, "PULL_STATE_LOCKSTEP: pull's state equals push's state after a matched pair");
+    let ctr = u32::from_le_bytes([n0[0], n0[1], n0[2], n0[3]]).wrapping_add(1);
+    let cb = ctr.to_le_bytes();
+    let mut n1 = n0; n1[0] = cb[0]; n1[1] = cb[1]; n1[2] = cb[2]; n1[3] = cb[3];
+    i = 0; while i < 8 { n1[4 + i] = n0[4 + i] ^ mac[i]; i += 1; }
+    let mut k1 = k0;
+    if (tag & 2) != 0 || ctr == 0 {
+        let r0 = chacha_block(&k1, 0, &n1);
+        i = 0; while i < 32 { k1[i] ^= r0[i]; i += 1; }
+        i = 0; while i < 8 { n1[4 + i] ^= r0[32 + i]; i += 1; }
+        n1[0] = 1; n1[1] = 0; n1[2] = 0; n1[3] = 0;
     }
+    let (k2, n2) = st.verif_parts();
+    assert!(*k2 == k1 && *n2 == n1, "PULL_STATE_LOCKSTEP: pull's state (incl. automatic rekey) equals libsodium's / push's after a matched pair");
 }
 ''' % dict(name=name, k=lit(key), n=lit(n), mlen=mlen)
 
@@ -347,10 +375,15 @@ def suites(tier, seed):
         inonce = [rnd.randrange(256) for _ in range(8)]
         for ctr in ctrs:
             for mlen in ([5] if tier == "quick" else [0, 5, 64, 65]):
-                n = "c03_pushpull_literal_k%d_c%08x_m%d" % (ki, ctr, mlen)
+                n = "c03_push_literal_k%d_c%08x_m%d" % (ki, ctr, mlen)
                 src += h_b(n, key, inonce, ctr, mlen)
-                hs.append(Harness(n, unwind=max(70, mlen + 20), timeout=2400, site="push+pull(literal state)",
-                                  desc="literal (key, nonce) instance, counter %#x, symbolic %d-byte message and tag: keystream-value facts vs the harness's ChaCha20, real rekey, pull(push(m)) = (m, tag)" % (ctr, mlen),
+                hs.append(Harness(n, unwind=max(70, mlen + 20), timeout=2400, site="push(literal state)",
+                                  desc="literal (key, nonce) instance, counter %#x, symbolic %d-byte message and tag: MAC key, tag block, ciphertext and post-state (real rekey) vs the harness's ChaCha20" % (ctr, mlen),
+                                  bounds={"mlen": mlen, "counter": ctr, "key": "literal (seeded)"}))
+                n = "c03_pull_literal_k%d_c%08x_m%d" % (ki, ctr, mlen)
+                src += h_b_pull(n, key, inonce, ctr, mlen)
+                hs.append(Harness(n, unwind=max(70, mlen + 20), timeout=2400, site="pull(literal state)",
+                                  desc="literal (key, nonce) instance, counter %#x: pull of libsodium's ciphertext for a symbolic %d-byte message and tag recovers both and lands in libsodium's state" % (ctr, mlen),
                                   bounds={"mlen": mlen, "counter": ctr, "key": "literal (seeded)"}))
             n = "c03_rekey_literal_k%d_c%08x" % (ki, ctr)
             src += h_rekey_b(n, key, inonce, ctr)
